@@ -163,6 +163,15 @@ func NewDriver(prop, tier string, seed int64, verifDir string) (*Driver, error) 
 	}, nil
 }
 
+// OutDir is where evidence and replay files go: VERIF_OUT when set (development runs against a
+// scratch copy of the repository), else the verif directory itself.
+func (d *Driver) OutDir() string {
+	if o := os.Getenv("VERIF_OUT"); o != "" {
+		return o
+	}
+	return d.VerifDir
+}
+
 func (d *Driver) Rand(label string) *Rand {
 	return NewRand(uint64(d.Seed)).Split(d.Prop).Split(label)
 }
@@ -269,7 +278,7 @@ func (d *Driver) Violation(signature, detail string, replay any) {
 	if d.violationSigs[signature] > 3 || d.violations > 25 {
 		return // do not flood; the first ones carry the witnesses
 	}
-	dir := filepath.Join(d.VerifDir, "replays", d.Prop)
+	dir := filepath.Join(d.OutDir(), "replays", d.Prop)
 	_ = os.MkdirAll(dir, 0o755)
 	name := fmt.Sprintf("%s-seed%d-%d.json", d.Tier, d.Seed, d.violations)
 	path := filepath.Join(dir, name)
@@ -361,8 +370,8 @@ func (d *Driver) Finish(minEvaluations, minDistinct int) int {
 		ev["assumptions"] = []string{}
 	}
 	body, _ := json.MarshalIndent(ev, "", " ")
-	_ = os.MkdirAll(filepath.Join(d.VerifDir, "evidence"), 0o755)
-	_ = os.WriteFile(filepath.Join(d.VerifDir, "evidence", d.Prop+".json"), body, 0o644)
+	_ = os.MkdirAll(filepath.Join(d.OutDir(), "evidence"), 0o755)
+	_ = os.WriteFile(filepath.Join(d.OutDir(), "evidence", d.Prop+".json"), body, 0o644)
 
 	evKinds := make([]string, 0, len(d.events))
 	for k := range d.events {
